@@ -216,6 +216,7 @@ fn cmd_one(args: &Args) -> i32 {
     report(&format!("probes {:?}", o.stats.probes));
     report(&format!("faults {:?}", o.stats.faults));
     report(&format!("events {:?}", o.stats.events_by_kind));
+    report(&format!("wall_us {:?}", o.stats.wall_us));
     if args.opts.contains_key("trace") {
         for (i, e) in o.events.iter().enumerate() {
             report(&format!("  {i}: {}", serde_json::to_string(e).unwrap()));
